@@ -23,6 +23,7 @@
    the three streams of the case (digest = the deterministic protobuf encoding of the payload). *)
 From stdpp Require Import gmap.
 From Verif.C02 Require Import Model Spec.
+From Verif.C01 Require Import Model Compose L3Reflag.
 Local Open Scope N_scope.
 
 Definition dp_of (ms : list msg) : world := apply_msgs world0 ms.
@@ -48,7 +49,7 @@ Definition exact_refs (w : world) : bool :=
   bool_decide (dom (w_sets w) = refs_of_kind KPol KIPSet w ∪ refs_of_kind KProf KIPSet w)
   && bool_decide (cells_of_kind KProf w = refs_of_kind KEp KProf w).
 
-Record case := mkCase {
+Record gcase := mkGCase {
   c_hist : list msg;      (* everything the history run emitted *)
   c_fresh : list msg;     (* fresh Felix, final state fed in canonical key order *)
   c_fresh2 : list msg;    (* fresh Felix, final state fed in shuffled key order *)
@@ -57,7 +58,7 @@ Record case := mkCase {
   c_panic : bool          (* some run of the real graph panicked *)
 }.
 
-Definition ok_case (c : case) : bool :=
+Definition ok_case (c : gcase) : bool :=
   negb (c_panic c)
   && same_dp (c_hist c) (c_fresh c)                 (* C01: history-independence *)
   && same_dp (c_fresh2 c) (c_fresh c)               (* ... and independence of the order of the initial snapshot *)
@@ -67,7 +68,71 @@ Definition ok_case (c : case) : bool :=
   && exact_refs (dp_of (c_fresh c)).
 
 (* (the Go driver's fold of the streams = the Coq fold, the specification accepts the implementation) *)
-Definition check_case (c : case) : bool * bool :=
+Definition check_graph (c : gcase) : bool * bool :=
   (bool_decide (dp_of (c_hist c) = world_of (c_hsets c) (c_hkv c))
    && bool_decide (dp_of (c_fresh c) = world_of (c_fsets c) (c_fkv c)),
    ok_case c).
+
+(* ------------------------------------------------------------------ the L3 route resolver slice (L3Reflag.v)
+   The driver feeds the REAL L3RouteResolver block values and local workload endpoints; [g_translate] turns each Go
+   update into the batch of trie entry changes OnBlockUpdate / OnWorkloadUpdate make (routesFromBlock: one block route
+   for the affine node, one per-address route for every allocation recorded for another node; removals first). *)
+Inductive gop :=
+| GBlock (b : N) (aff : option N) (allocs : list (N * N))     (* block b := affinity, [(address, node it is allocated to)] *)
+| GBlockDel (b : N)
+| GWep (a : N) | GWepDel (a : N).                              (* local workload endpoint holding address a *)
+
+Definition blk8 (a : N) : N := a / 8.                           (* blocks are /29s *)
+Definition an_mem (x : N * N) (l : list (N * N)) : bool := existsb (λ y, (x.1 =? y.1) && (x.2 =? y.2)) l.
+Definition oN_eqb (x y : option N) : bool :=
+  match x, y with Some a, Some b => a =? b | None, None => true | _, _ => false end.
+Definition block_routes (aff : option N) (allocs : list (N * N)) : option N * list (N * N) :=
+  (aff, List.filter (λ an, match aff with Some h => negb (an.2 =? h) | None => true end) allocs).
+
+(* translation state: the routes each block contributed last time, and the addresses held by a workload endpoint
+   (OnBlockUpdate only touches routes that changed; OnWorkloadUpdate ignores an update that leaves the CIDRs as they are) *)
+Definition gstate := (gmap N (option N * list (N * N)) * gset N)%type.
+Definition g_step (st : gstate) (g : gop) : gstate * list l3op :=
+  let '(prev, weps) := st in
+  match g with
+  | GBlock b aff allocs =>
+      let '(nb, na) := block_routes aff allocs in
+      let '(ob, oa) := default (None, []) (prev !! b) in
+      let dels := map (λ an, AddrBlkDel an.1) (List.filter (λ an, negb (an_mem an na)) oa)
+                  ++ (if oN_eqb ob nb then [] else match ob with Some _ => [BlockDel b] | None => [] end) in
+      let adds := map (λ an, AddrBlkSet an.1 an.2) (List.filter (λ an, negb (an_mem an oa)) na)
+                  ++ (if oN_eqb ob nb then [] else match nb with Some n => [BlockSet b n] | None => [] end) in
+      ((<[b := (nb, na)]> prev, weps), dels ++ adds)
+  | GBlockDel b =>
+      let '(ob, oa) := default (None, []) (prev !! b) in
+      ((delete b prev, weps), map (λ an, AddrBlkDel an.1) oa ++ match ob with Some _ => [BlockDel b] | None => [] end)
+  | GWep a => ((prev, {[a]} ∪ weps), if bool_decide (a ∈ weps) then [] else [WepSet a 0])
+  | GWepDel a => ((prev, weps ∖ {[a]}), if bool_decide (a ∈ weps) then [WepDel a] else [])
+  end.
+Fixpoint g_translate (st : gstate) (gs : list gop) : list (list l3op) :=
+  match gs with
+  | [] => []
+  | g :: r => let '(p, batch) := g_step st g in batch :: g_translate p r
+  end.
+
+Definition R (dst : N) (loc rem locwl borrowed : bool) : route :=
+  {| r_dst := dst; r_local := loc; r_remote := rem; r_localwl := locwl; r_borrowed := borrowed |}.
+
+Record l3case := mkL3Case {
+  l_reflag : bool;                          (* does the tree re-flag contained routes on a block change (probed) *)
+  l_ops : list gop;
+  l_table : list ((N + N) * route);         (* the route table the real resolver's callbacks add up to *)
+  l_plain : bool                            (* every other RouteUpdate field had its default value *)
+}.
+
+Definition check_l3 (c : l3case) : bool * bool :=
+  let batches := g_translate (∅, ∅) (l_ops c) in
+  let obs : gmap (N + N) route := list_to_map (l_table c) in
+  let i := net L3IN batches in
+  let cands := (l_table c).*1 ++ (inl <$> elements (dom (i_blk i))) ++ (inr <$> elements (dom (i_ablk i) ∪ dom (i_wep i))) in
+  (bool_decide (net RT (n_outs (l3_node blk8 (l_reflag c)) batches) = obs),
+   l_plain c && forallb (λ c0, bool_decide (obs !! c0 = route_of blk8 i c0)) cands).
+
+Inductive case := mkCase (c : gcase) | mkL3 (c : l3case).
+Definition check_case (c : case) : bool * bool :=
+  match c with mkCase g => check_graph g | mkL3 l => check_l3 l end.
